@@ -66,6 +66,21 @@ CLAIMED = {
                 "this model (they are no-ops without their rules).",
         "technique": "Coq proof (world/ghost refinement invariant, induction over the history) + correspondence by vm_compute",
     },
+    "C06": {
+        "text": "Theorems (Props/C06.v) over the model of the hotspot RejectChecker: (1) the reference token "
+                "bucket of one value obeys D*admitted <= D*(q+b) + q*(t_last - t_first) for every q, b, D>0 and "
+                "every non-decreasing request sequence of any length (invariant D*(admitted+rest) <= D*m + "
+                "q*(last-first)); (2) a rejection happens only for threshold 0, batch > q+b or insufficient "
+                "available tokens, and changes nothing; (3) no cross-talk: in any mixed traffic the controller's "
+                "decisions for value v equal those of v's own bucket (with v's override) run on v's requests "
+                "alone. The model is compared with the crate through EntryBuilder on the virtual clock, and the "
+                "bound and the per-value reference decisions are evaluated on the implementation's trace.",
+        "design_ref": "DESIGN.md §6 C06, Appendix A.4",
+        "note": "Trusted: Coq kernel + VM; LRU counters modelled as maps without eviction (the property is "
+                "stated within capacity); sequential path of the checker's retry loop; correspondence by "
+                "differential runs.",
+        "technique": "Coq proof (invariant by induction over the request list, projection lemma) + correspondence by vm_compute",
+    },
 }
 
 REASON_TODO = "not yet covered by the Coq development in this revision (planned, see DESIGN.md §6); no check is claimed"
